@@ -64,13 +64,18 @@ Qed.
 
 Definition alive (r : rword) : Prop := is_dead r = false.
 
+Lemma BW_set_hdr c s h : BW c s -> BW c (set_hdr s h).
+Proof. unfold BW, set_hdr; cbn [b_w b_sec b_s1 b_s2 b_s3]. auto. Qed.
+Lemma CountInv_set_hdr s a h : CountInv s a -> CountInv (set_hdr s h) a.
+Proof. unfold CountInv, set_hdr; cbn [b_qd b_an b_ns b_ar b_sec]. auto. Qed.
+
 (* one operation preserves the invariants (unless it panics) *)
 Lemma step_inv c s a o s' r :
   BW c s -> CountInv s a -> step c s o = (s', r) -> alive r ->
   BW c s' /\ CountInv s' (acc_step (b_sec s) a o r).
 Proof.
   intros HB HC H AL. pose proof HB as (TB & SI & L12 & Lsec & R).
-  destruct o as [q|rr|udp opts| | | |l]; cbn [step] in H.
+  unfold step in H. destruct o as [q|rr|oh opts| | | |l|h]; cbn [step_gen] in H.
   - destruct (N.eqb_spec (b_sec s) 0) as [E0|E0]; [|injection H as <- <-; split; auto].
     destruct (mb_push_cases c s (compose_question c q) HB (compose_question_spec c q))
       as [(w' & _ & E & X & TB' & SI' & _)|[(e' & E)|(x & E & D)]]; rewrite E in H; injection H as <- <-.
@@ -84,10 +89,10 @@ Proof.
     + split; auto.
     + unfold alive in AL. congruence.
   - destruct (N.eqb_spec (b_sec s) 3) as [E0|E0]; [|injection H as <- <-; split; auto].
-    destruct (mb_push_cases c s (compose_opt c udp opts) HB (compose_opt_spec c udp opts))
-      as [(w' & _ & E & X & TB' & SI' & _)|[(e' & E)|(x & E & D)]]; rewrite E in H; injection H as <- <-.
-    + split; [apply BW_push_ok; auto|]. cbn [acc_step]. apply CountInv_push_r; auto. lia.
-    + split; auto.
+    destruct (mb_push_cases c s (compose_opt c oh opts) HB (compose_opt_spec c oh opts))
+      as [(w' & _ & E & X & TB' & SI' & _)|[(e' & E)|(x & E & D)]]; rewrite E in H; cbn [fst snd] in H; injection H as <- <-.
+    + split; [apply BW_set_hdr; apply BW_push_ok; auto|]. cbn [acc_step]. apply CountInv_set_hdr. apply CountInv_push_r; auto. lia.
+    + split; [apply BW_set_hdr; auto|apply CountInv_set_hdr; auto].
     + unfold alive in AL. congruence.
   - (* OpNext *)
     destruct (N.ltb_spec (b_sec s) 3) as [L3|L3]; injection H as <- <-; [|split; auto].
@@ -125,6 +130,7 @@ Proof.
     destruct (rewind_inv c s HB) as (w & _ & ER & HB' & _). rewrite ER in H. injection H as <- <-.
     cbn [acc_step]. split; [exact HB'|]. apply CountInv_clear; auto.
   - injection H as <- <-. split; [exact HB|exact HC].
+  - injection H as <- <-. split; [apply BW_set_hdr; exact HB|apply CountInv_set_hdr; exact HC].
 Qed.
 
 Lemma init_inv c s0 : init c = Some s0 -> BW c s0 /\ CountInv s0 acc0.
@@ -179,7 +185,7 @@ Proof. reflexivity. Qed.
 Lemma msg_of_mlen s : 12 <= mlen (w_buf (b_w s)) -> mlen (msg_of s) = mlen (w_buf (b_w s)).
 Proof.
   intros L. unfold msg_of. rewrite !mlen_app, !be16_mlen. unfold mlen in *.
-  rewrite firstn_length, skipn_length. lia.
+  rewrite firstn_length, skipn_length, app_length. cbn [length]. lia.
 Qed.
 
 (* every reachable state: tables inside the buffer and below 0x4000, stream
@@ -215,3 +221,85 @@ Example run_example :
               = Some (s, a, [ROk; RNone; ROk; RErr E_SHORTBUF; RNone; RErr E_LIMIT]) /\
              b_an s = 1 /\ length (a_an a) = 1%nat /\ w_static (b_w s) = [12; 16].
 Proof. vm_compute. eexists; eexists; repeat split. Qed.
+
+(* ------------------------------------------------------ section conversions *)
+
+(* the accepted items after moving to another section: sections above it are empty *)
+Definition acc_upto (a a' : acc) (k : N) : Prop :=
+  a_q a' = a_q a /\ a_an a' = (if k <? 1 then [] else a_an a) /\
+  a_ns a' = (if k <? 2 then [] else a_ns a) /\ a_ar a' = (if k <? 3 then [] else a_ar a).
+
+Lemma run_next c : forall n s a s' a' ws,
+  BW c s -> CountInv s a -> b_sec s + N.of_nat n <= 3 ->
+  run_acc c s a (repeat OpNext n) = (s', a', ws) ->
+  b_sec s' = b_sec s + N.of_nat n /\ Forall (fun w => w = RNone) ws /\ a' = a /\ b_w s' = b_w s.
+Proof.
+  induction n as [|n IH]; intros s a s' a' ws HB HC L H; cbn [repeat run_acc] in H.
+  - injection H as <- <- <-. repeat split; auto. lia.
+  - destruct (step c s OpNext) as [s1 w] eqn:ES.
+    pose proof ES as ES'. unfold step in ES'. cbn [step_gen] in ES'.
+    destruct (N.ltb_spec (b_sec s) 3) as [L3|L3]; [|lia]. injection ES' as <- <-.
+    cbn [is_dead acc_step] in H.
+    match type of H with context [run_acc c ?x a (repeat OpNext n)] => set (s1 := x) in * end.
+    destruct (run_acc c s1 a (repeat OpNext n)) as [[s2 a2] ws2] eqn:ER. injection H as <- <- <-.
+    destruct (step_inv c s a OpNext s1 RNone HB HC ES eq_refl) as (HB1 & HC1). cbn [acc_step] in HC1.
+    assert (E1 : b_sec s1 = b_sec s + 1 /\ b_w s1 = b_w s).
+    { subst s1. unfold set_sec, set_start. destruct (b_sec s + 1 =? 1); [|destruct (b_sec s + 1 =? 2)]; cbn; auto. }
+    destruct E1 as (E1 & E2).
+    destruct (IH s1 a s2 a2 ws2 HB1 HC1 ltac:(lia) ER) as (A & B & C & D).
+    split; [lia|]. split; [constructor; auto|]. split; [exact C|congruence].
+Qed.
+
+Lemma run_back c : forall n s a s' a' ws,
+  BW c s -> CountInv s a -> N.of_nat n <= b_sec s ->
+  run_acc c s a (repeat OpBack n) = (s', a', ws) ->
+  b_sec s' = b_sec s - N.of_nat n /\ Forall (fun w => w = RNone) ws /\
+  BW c s' /\ CountInv s' a' /\ acc_upto a a' (b_sec s').
+Proof.
+  induction n as [|n IH]; intros s a s' a' ws HB HC L H; cbn [repeat run_acc] in H.
+  - injection H as <- <- <-. split; [lia|]. split; [constructor|]. split; [exact HB|]. split; [exact HC|].
+    destruct HC as (_ & _ & _ & _ & e1 & e2 & e3). unfold acc_upto.
+    split; [reflexivity|]. split; [destruct (N.ltb_spec (b_sec s) 1); auto|].
+    split; [destruct (N.ltb_spec (b_sec s) 2); auto|destruct (N.ltb_spec (b_sec s) 3); auto].
+  - destruct (step c s OpBack) as [s1 w] eqn:ES.
+    pose proof ES as ES'. unfold step in ES'. cbn [step_gen] in ES'.
+    destruct (N.eqb_spec (b_sec s) 0) as [E0|E0]; [lia|].
+    destruct (rewind_inv c s HB) as (w0 & _ & ERw & _). rewrite ERw in ES'. injection ES' as <- <-.
+    cbn [is_dead] in H.
+    match type of H with context [run_acc c ?x ?y (repeat OpBack n)] => set (s1 := x) in *; set (a1 := y) in * end.
+    destruct (run_acc c s1 a1 (repeat OpBack n)) as [[s2 a2] ws2] eqn:ER. injection H as <- <- <-.
+    destruct (step_inv c s a OpBack s1 RNone HB HC ES eq_refl) as (HB1 & HC1). fold a1 in HC1.
+    assert (E1 : b_sec s1 = b_sec s - 1) by (subst s1; reflexivity).
+    destruct (IH s1 a1 s2 a2 ws2 HB1 HC1 ltac:(lia) ER) as (A & B & C & D & (u0 & u1 & u2 & u3)).
+    split; [lia|]. split; [constructor; auto|]. split; [exact C|]. split; [exact D|].
+    assert (K : b_sec s2 < b_sec s) by lia.
+    subst a1. cbn [acc_step] in u0, u1, u2, u3. destruct (N.eqb_spec (b_sec s) 0); [lia|].
+    unfold acc_clear_sec in u0, u1, u2, u3. cbn [a_q a_an a_ns a_ar] in u0, u1, u2, u3.
+    destruct (N.eqb_spec (b_sec s) 0); [lia|].
+    unfold acc_upto. split; [exact u0|].
+    split; [rewrite u1; destruct (N.ltb_spec (b_sec s2) 1); [reflexivity|destruct (N.eqb_spec (b_sec s) 1); [lia|reflexivity]]|].
+    split; [rewrite u2; destruct (N.ltb_spec (b_sec s2) 2); [reflexivity|destruct (N.eqb_spec (b_sec s) 2); [lia|reflexivity]]|].
+    rewrite u3; destruct (N.ltb_spec (b_sec s2) 3); [reflexivity|destruct (N.eqb_spec (b_sec s) 3); [lia|reflexivity]].
+Qed.
+
+(* every conversion, from every section to every section, ends in the wanted
+   section, answers nothing but "-", keeps the accepted items (and hence the
+   counters, CountInv) of the sections up to the destination and empties
+   (zeroes) exactly the ones above it *)
+Theorem conv_counts c s a k s' a' ws :
+  BW c s -> CountInv s a -> k <= 3 ->
+  run_acc c s a (conv_ops (b_sec s) k) = (s', a', ws) ->
+  b_sec s' = k /\ Forall (fun w => w = RNone) ws /\ CountInv s' a' /\ acc_upto a a' k.
+Proof.
+  intros HB HC Lk H. pose proof HB as (_ & _ & _ & Ls & _). unfold conv_ops in H.
+  destruct (N.leb_spec (b_sec s) k) as [L|L].
+  - destruct (run_next c (N.to_nat (k - b_sec s)) s a s' a' ws HB HC ltac:(lia) H) as (A & B & Ea & D).
+    split; [lia|]. split; [exact B|].
+    assert (HC' : CountInv s' a').
+    { eapply (run_acc_inv c _ s a s' a' ws HB HC H). eapply Forall_impl; [|exact B]. intros w ->. reflexivity. }
+    split; [exact HC'|]. subst a'. destruct HC as (_ & _ & _ & _ & e1 & e2 & e3). unfold acc_upto.
+    split; [reflexivity|]. split; [destruct (N.ltb_spec k 1); auto; apply e1; lia|].
+    split; [destruct (N.ltb_spec k 2); auto; apply e2; lia|destruct (N.ltb_spec k 3); auto; apply e3; lia].
+  - destruct (run_back c (N.to_nat (b_sec s - k)) s a s' a' ws HB HC ltac:(lia) H) as (A & B & _ & D & U).
+    assert (E : b_sec s' = k) by lia. rewrite E in U. auto.
+Qed.
